@@ -5623,9 +5623,10 @@ class Entity(object, metaclass=EntityMeta):
         assert obj._save_pos_ is not None, 'save_pos is None for %s object' % obj._status_
         cache = obj._session_cache_
         assert cache is not None and cache.is_alive and not cache.saved_objects
-        if obj._status_ == 'marked_to_delete' and cache.deleted_before_update:
-            # rows that still refer to this one may have to be deleted first (_delete_referring_rows_first_), each
-            # of them after its own before_delete hook: the order and the hooks are left to the full flush
+        if obj._status_ == 'marked_to_delete':
+            # the UPDATEs which detach other rows from this one and the DELETEs of rows which refer to it are queued
+            # in front of its DELETE and have to be sent first, each after its own before_* hook: the order and
+            # the hooks are left to the full flush
             cache.flush()
             return
         with cache.flush_disabled():
